@@ -16,6 +16,8 @@ ASSUMPTIONS = [
     "ValueError for the others by design); values written to the inputs come from the clean pool",
     "the save/load leg goes through yml, json or pkl files in the check's work directory",
     "unbounded row/column ranges are outside coq/Model/Trim.v: that stream is judged by the oracle alone",
+    "the spelling of an address (quoted sheet, $, lower case, address objects) and multi-sheet workbooks are outside "
+    "coq/Model/Trim.v (nodes are indices there): the spelling stream is judged by the oracle alone",
 ]
 
 
@@ -111,7 +113,12 @@ def run(ctx):
         "outputs), inputs among the constants the outputs read, so that the unbounded range is independent of the "
         "inputs or contains one; untrimmed vs trimmed vs trimmed+saved+loaded through yml, json AND pkl, 3 "
         "assignment rounds; the untrimmed model is also compared with a fresh compile of the workbook holding the "
-        "values written so far")
+        "values written so far. Spelling stream (oracle only): two sheets named from a pool with names that need "
+        "quotes ('Rates 2024', it's here, 2024 Q1) and plain ones - constants and formulas on a data sheet, formulas "
+        "reading it on a calculation sheet; trim_graph called with the input and output addresses in every valid "
+        "spelling (canonical text, quoted sheet name, absolute $A$1 / $A1 / A$1, lower-case column, AddressCell / "
+        "AddressRange objects), later set_value / evaluate through a spelling too; same legs (yml, json and pkl) and "
+        "oracle")
     nwb = ctx.n(200, 2000)
     nchain = ctx.n(70, 700)
     model_batch = []
@@ -252,6 +259,11 @@ def run(ctx):
         except Exception as exc:      # noqa: BLE001
             ctx.violation(case, f"trim with a range input raises {type(exc).__name__}: {exc}"[:200])
     unbounded_stream(ctx, ExcelCompiler)
+    try:
+        spelling_stream(ctx, ExcelCompiler)
+    except Exception:      # noqa: BLE001
+        import traceback
+        ctx.broke("harness: spelling_stream failed", traceback.format_exc())
     shutil.rmtree(ctx.work, ignore_errors=True)
 
 
@@ -381,6 +393,178 @@ def unbounded_stream(ctx, ExcelCompiler):
                 if res[name] != res['untrimmed']:
                     raises = {'raises': res[name].split(':')[0]} if isinstance(res[name], str) else {}
                     ctx.violation(dict(case, leg=name, early=early, round=rnd, assign=shown, values=dict(current), **raises),
+                                  f"outputs of the {name.split(':')[0]} model differ from the untrimmed model",
+                                  impl=res[name], expected=res['untrimmed'])
+
+
+# ------------------------------------------------------------------ every valid spelling of an address
+SPELL_SHEETS = ['Rates 2024', 'My Data', "it's here", 'Sheet 1', '2024 Q1', 'Calc', 'S', 'Data_1']
+SPELL_VALUES = [1, 2, 3, 5, 7, 10, -4, 12, 100]
+
+
+def _quote(sheet):
+    return "'" + sheet.replace("'", "''") + "'"
+
+
+def _ref(sheet, coord, here=None):
+    """a reference to sheet!coord inside a formula of sheet `here`"""
+    if sheet == here:
+        return coord
+    plain = sheet.replace('_', '').isalnum() and not sheet[0].isdigit()
+    return f'{sheet if plain else _quote(sheet)}!{coord}'
+
+
+def spellings(rng, sheet, coord):
+    """valid ways of writing the address of one cell as an argument of trim_graph / set_value / evaluate:
+    (label, value).  'canonical' is the text pycel prints for the address (sheet name never quoted)."""
+    import re as _re
+    from pycel.excelutil import AddressCell, AddressRange
+    col, row = _re.fullmatch(r'([A-Z]+)(\d+)', coord).groups()
+    plain = sheet.replace('_', '').isalnum() and not sheet[0].isdigit()
+    q = _quote(sheet)
+    out = [('canonical', f'{sheet}!{coord}'),
+           ('quoted-sheet', f'{q}!{coord}'),
+           ('absolute', f'{q if not plain else sheet}!${col}${row}'),
+           ('absolute-col', f'{q}!${col}{row}'),
+           ('absolute-row', f'{q if not plain else sheet}!{col}${row}'),
+           ('lower-case', f'{q if not plain else sheet}!{col.lower()}{row}'),
+           ('lower-case-absolute', f'{q}!${col.lower()}${row}'),
+           ('AddressCell', AddressCell(f'{q}!{coord}')),
+           ('AddressRange', AddressRange(f'{q}!{coord}')),
+           ('AddressCell-absolute', AddressCell(f'{q}!${col}${row}'))]
+    return out
+
+
+def spelling_stream(ctx, ExcelCompiler):
+    """trim_graph (and the set_value / evaluate that follow) called with input and output addresses in every valid
+    spelling.  Two sheets - a data sheet (constants in A, formulas in B) and a calculation sheet whose formulas read
+    the data sheet - named from a pool with names that need quotes ('Rates 2024', it's here) and plain ones; inputs
+    are constants the chosen outputs read.  Legs and oracle as everywhere in C08: untrimmed, trimmed (before / after
+    the first evaluate), trimmed + saved + loaded through yml, json and pkl; 3 rounds of assignment of every input;
+    every leg = untrimmed, and the untrimmed model addressed through the spellings = the same model addressed
+    canonically (a fresh compile holding the assigned values)."""
+    import openpyxl
+    rng = ctx.rng
+    for k in range(ctx.n(60, 600)):
+        t1, t2 = rng.sample(SPELL_SHEETS, 2)
+        if k % 3 == 0:
+            t1 = rng.choice(SPELL_SHEETS[:5])           # the inputs live on a sheet whose name needs quotes
+            t2 = rng.choice([x for x in SPELL_SHEETS if x != t1])
+        n = rng.randrange(2, 5)
+        cells, deps = {}, {}                             # (sheet, coord) -> content / precedents
+        for r in range(1, n + 1):
+            cells[(t1, f'A{r}')] = rng.choice(SPELL_VALUES)
+        for r in range(1, n + 1):
+            a, b = rng.randrange(1, n + 1), rng.randrange(1, n + 1)
+            form = rng.choice([(f'=A{a}*2', [f'A{a}']), (f'=A{a}+A{b}', [f'A{a}', f'A{b}']),
+                               (f'=SUM(A1:A{n})', [f'A{i}' for i in range(1, n + 1)]),
+                               (f'=B{r - 1}+A{a}', [f'B{r - 1}', f'A{a}']) if r > 1 else (f'=A{a}-1', [f'A{a}']),
+                               (f'=A{a}&"x"', [f'A{a}'])])
+            cells[(t1, f'B{r}')] = form[0]
+            deps[(t1, f'B{r}')] = [(t1, c) for c in form[1]]
+        m = rng.randrange(2, 5)
+        for r in range(1, m + 1):
+            c1 = rng.choice('AB') + str(rng.randrange(1, n + 1))
+            c2 = rng.choice('AB') + str(rng.randrange(1, n + 1))
+            forms = [(f'={_ref(t1, c1, t2)}*3', [(t1, c1)]),
+                     (f'={_ref(t1, c1, t2)}+{_ref(t1, c2, t2)}', [(t1, c1), (t1, c2)]),
+                     (f'=SUM({_ref(t1, "A1", t2)}:A{n})+{_ref(t1, c1, t2)}',
+                      [(t1, f'A{i}') for i in range(1, n + 1)] + [(t1, c1)]),
+                     (f'={_ref(t1, c1, t2)}&"y"', [(t1, c1)])]
+            if r > 1:
+                forms += [(f'=A{r - 1}+{_ref(t1, c1, t2)}', [(t2, f'A{r - 1}'), (t1, c1)]),
+                          (f'=A{r - 1}*2', [(t2, f'A{r - 1}')])]
+            text, d = rng.choice(forms)
+            cells[(t2, f'A{r}')] = text
+            deps[(t2, f'A{r}')] = d
+        outs_all = [(t2, f'A{r}') for r in range(1, m + 1)] + [(t1, f'B{r}') for r in range(1, n + 1)]
+        outs = rng.sample(outs_all[:m], rng.randrange(1, min(2, m) + 1))
+        if rng.random() < 0.3:
+            outs.append(rng.choice(outs_all[m:]))
+        anc, todo = set(), list(outs)
+        while todo:
+            for d in deps.get(todo.pop(), ()):
+                if d not in anc:
+                    anc.add(d)
+                    todo.append(d)
+        consts = sorted(c for c in anc if c in cells and c not in deps)
+        if not consts:
+            continue
+        ins = rng.sample(consts, rng.randrange(1, min(3, len(consts)) + 1))
+        # the spelling of every address: trim inputs, trim outputs, later writes / reads (mostly canonical there)
+        in_sp = [rng.choice(spellings(rng, *c)[(1 if k % 2 else 0):]) for c in ins]
+        out_sp = [rng.choice(spellings(rng, *c)) for c in outs]
+        use_sp = {c: (rng.choice(spellings(rng, *c)) if rng.random() < 0.3 else spellings(rng, *c)[0])
+                  for c in ins + outs}
+        canonical = {c: f'{c[0]}!{c[1]}' for c in cells}
+        desc = [(canonical[c], None, v) if c in deps else (canonical[c], v, None) for c, v in cells.items()]
+        case = dict(call='trim-spelling', workbook=desc,
+                    args=[[repr(v) if not isinstance(v, str) else v for _, v in in_sp],
+                          [repr(v) if not isinstance(v, str) else v for _, v in out_sp]],
+                    spelling=dict(inputs=[lab for lab, _ in in_sp], outputs=[lab for lab, _ in out_sp]))
+        early = rng.random() < 0.5
+
+        def build(values=None):
+            owb = openpyxl.Workbook()
+            sheets = {t1: owb.active, t2: owb.create_sheet(t2)}
+            owb.active.title = t1
+            for (sh, coord), v in cells.items():
+                sheets[sh][coord] = (values or {}).get((sh, coord), v)
+            return owb
+        try:
+            full = ExcelCompiler(excel=build())
+            trimmed = ExcelCompiler(excel=build())
+            if not early:
+                for c in outs:
+                    trimmed.evaluate(canonical[c])
+            trimmed.trim_graph([v for _, v in in_sp], [v for _, v in out_sp])
+        except Exception as exc:      # noqa: BLE001   (every input has a path to an output: no refusal expected)
+            ctx.violation(case, f"trim_graph raises {type(exc).__name__}: {exc}"[:200])
+            continue
+        ctx.count(('spelling', k), kind='trim-spelling:' + in_sp[0][0],
+                  sample=dict(case, early=early))
+        legs = [('untrimmed', full), ('trimmed', trimmed)]
+        for ext in ('yml', 'json', 'pkl'):
+            stem = os.path.join(ctx.work, f'sp{k}_{ext}_m')
+            try:
+                trimmed.to_file(stem, file_types=(ext,))
+                legs.append((f'loaded:{ext}', ExcelCompiler.from_file(stem + '.' + ext)))
+            except Exception as exc:      # noqa: BLE001
+                ctx.violation(dict(case, leg='save/load', format=ext, early=early),
+                              f"save/load of the trimmed model raises {type(exc).__name__}: {exc}"[:200])
+            for f in os.listdir(ctx.work):
+                if f.startswith(f'sp{k}_{ext}'):
+                    os.remove(os.path.join(ctx.work, f))
+        current = {}
+        for rnd in range(3):
+            assign = {c: rng.choice(SPELL_VALUES) for c in ins} if rnd else {}
+            current.update(assign)
+            shown = {canonical[c]: v for c, v in assign.items()}
+            res = {}
+            for name, comp in legs:
+                try:
+                    for c, v in assign.items():
+                        if name == 'untrimmed' and canonical[c] not in comp.cell_map:
+                            comp.evaluate(canonical[c])
+                        comp.set_value(use_sp[c][1], v)
+                    res[name] = [canon(comp.evaluate(use_sp[c][1])) for c in outs]
+                except Exception as exc:      # noqa: BLE001
+                    res[name] = f'{type(exc).__name__}: {exc}'[:120]
+            try:
+                fresh = ExcelCompiler(excel=build(current))
+                res['fresh'] = [canon(fresh.evaluate(canonical[c])) for c in outs]
+            except Exception as exc:      # noqa: BLE001
+                res['fresh'] = f'{type(exc).__name__}: {exc}'[:120]
+            if res['untrimmed'] != res['fresh']:
+                ctx.violation(dict(case, leg='untrimmed', round=rnd, assign=shown,
+                                   used={canonical[c]: lab for c, (lab, _) in use_sp.items()}),
+                              "outputs of the untrimmed model (written and read through the spelled addresses) differ "
+                              "from a fresh compile of the workbook holding the values written so far",
+                              impl=res['untrimmed'], expected=res['fresh'])
+            for name, _ in legs[1:]:
+                if res[name] != res['untrimmed']:
+                    raises = {'raises': res[name].split(':')[0]} if isinstance(res[name], str) else {}
+                    ctx.violation(dict(case, leg=name, early=early, round=rnd, assign=shown, **raises),
                                   f"outputs of the {name.split(':')[0]} model differ from the untrimmed model",
                                   impl=res[name], expected=res['untrimmed'])
 
